@@ -188,7 +188,7 @@ RefLog(b, layers, answered) ==
              ELSE RefLogEv(b, layers[2 * n + 1 - i], IF answered THEN "send" ELSE "drop") ]
 
 (* ---- the reference observation ---- *)
-RefAux(b) == [ inflated |-> REF_GHOST_INFLATED, uaddr |-> UaddrOf(b), chain |-> 0, grp |-> 0, pair |-> 0 ]
+RefAux(b) == [ inflated |-> REF_GHOST_INFLATED, uaddr |-> UaddrOf(b), chain |-> 0, grp |-> 0, pair |-> 0, seg |-> 0 ]
 
 RefReply(b) ==
     LET o == ExpectL2(b) IN
